@@ -1,12 +1,52 @@
-(** C06 - data directives emit exactly the bytes written (examples; theorems added with Proofs/DataProofs.v). *)
+(** C06 - data directives emit exactly the bytes written, little-endian, exact width.
+    Property theorems only; proofs are in Proofs/DataProofs.v. *)
 From Coq Require Import List ZArith NArith String.
 Import ListNotations.
-Require Import AvraV.Model.Base AvraV.Model.Ast AvraV.Model.Passes.
+Require Import AvraV.Model.Base AvraV.Model.Ast AvraV.Model.Eval AvraV.Model.Parse AvraV.Model.Passes.
+Require Import AvraV.Spec.DataSpec AvraV.Proofs.DataProofs.
+
+(** For every data directive and every operand list (any length, any mix of expressions and
+    strings), reading the value of each expression off the evaluator ([val]): the bytes pass 2
+    emits are exactly the operands in source order as 1/2/4/8-byte little-endian two's complement
+    values and strings as their bytes (Spec/DataSpec.spec_data); the directive fails exactly when
+    a value does not fit its width, has no value, or a string appears in .dw/.dd/.dq. *)
+Theorem C06_data : forall fuel c k (val : expr -> option Z) l,
+  (forall e, In (PE e) l -> run fuel c e = match val e with Some v => Ok v | None => Err None end) ->
+  data_bytes fuel c k l = to_resl (spec_data val k l).
+Proof. intros; apply data_spec; assumption. Qed.
+Check C06_data : forall fuel c k (val : expr -> option Z) l,
+  (forall e, In (PE e) l -> run fuel c e = match val e with Some v => Ok v | None => Err None end) ->
+  data_bytes fuel c k l = to_resl (spec_data val k l).
+Print Assumptions C06_data.
+
+(** Segments: in flash a .db line of odd length is padded by appending one zero element (pass 1), in
+    EEPROM nothing is added; data directives in the data segment and .byte in the code segment are
+    errors naming the line; .byte n in EEPROM emits n zero bytes. *)
+Theorem C06_flash_padding : forall c cur out cp l,
+  let l' := if (actual_len l mod 2 =? 1)%N then l ++ [PE (EConst 0)] else l in
+  pass1_item SCode (c, cur, out) (cp, IData Db l) =
+    (do x <- advance (fst cp) cur (actual_len l' / 2)%N; Ok (c, x, out ++ [(cp, IData Db l')])).
+Proof. intros. subst l'. unfold pass1_item. cbn [fst]. destruct (actual_len l mod 2 =? 1)%N; reflexivity. Qed.
+Theorem C06_eeprom_no_padding : forall c cur out cp l,
+  pass1_item SEeprom (c, cur, out) (cp, IData Db l) = (do x <- advance (fst cp) cur (actual_len l); Ok (c, x, out ++ [(cp, IData Db l)])).
+Proof. reflexivity. Qed.
+Theorem C06_wrong_segment : forall c cur out cp k l n,
+  pass1_item SData (c, cur, out) (cp, IData k l) = Err (Some (fst cp)) /\
+  pass1_item SCode (c, cur, out) (cp, IReserve n) = Err (Some (fst cp)).
+Proof. intros. split; [destruct k|]; reflexivity. Qed.
+Theorem C06_reserve_eeprom : forall fuel c cur out cp n x,
+  add32 cur (as_u32 n) = Ok x ->
+  pass2_item fuel SEeprom (c, cur, out) (cp, IReserve n) = Ok (ctx_set_pc c cur, x, out ++ repeat 0%N (Z.to_nat n)).
+Proof. intros. unfold pass2_item. rewrite H. reflexivity. Qed.
+Print Assumptions C06_reserve_eeprom.
+
 Definition images (src : string) : option (list N * list N) :=
   match build_str 200 (list_ascii_of_string src) with Ok b => Some (b_code b, b_eeprom b) | _ => None end.
 Definition nl := String (Ascii.ascii_of_N 10) EmptyString.
 Example C06_examples :
   images (".db 1, ""ab""" ++ nl ++ ".dw -2" ++ nl) = Some ([1; 97; 98; 0; 254; 255], [])%N /\
   images (".eseg" ++ nl ++ ".db 1" ++ nl ++ ".byte 2" ++ nl ++ ".dd 0x01020304" ++ nl) = Some ([], [1; 0; 0; 4; 3; 2; 1])%N /\
-  images (".db 256" ++ nl) = None /\ images (".dw ""ab""" ++ nl) = None /\ images (".dseg" ++ nl ++ ".db 1" ++ nl) = None.
+  images (".db 256" ++ nl) = None /\ images (".dw ""ab""" ++ nl) = None /\ images (".dseg" ++ nl ++ ".db 1" ++ nl) = None /\
+  spec_data (fun _ => Some (-2)%Z) Dd [PE (EConst 0)] = Some [254; 255; 255; 255]%N /\
+  spec_data (fun _ => Some 65536%Z) Dw [PE (EConst 0)] = None.
 Proof. vm_compute. repeat split; reflexivity. Qed.
